@@ -28,6 +28,7 @@ import PoetryVerif.Proofs.MarkerAlgSoundPrC
 import PoetryVerif.Proofs.MarkerAlgSoundFull4
 import PoetryVerif.Proofs.MarkerAlgSoundFullL
 import PoetryVerif.Proofs.MarkerAlgSoundListCtor
+import PoetryVerif.Proofs.MarkerAlgSoundPairLL
 import PoetryVerif.Proofs.PyConvPairFinal
 import PoetryVerif.Proofs.PyConvPairCompat
 import PoetryVerif.Proofs.MarkerPrint
@@ -840,6 +841,75 @@ theorem intersect_union_sound_lists_pfv {C : String → Prop}
   exact ⟨fun h => by have := intersect_sound_partial S hev ha hb h; exact ⟨this.1, this.2.2⟩,
     fun h => by have := union_sound_partial S hev ha hb h; exact ⟨this.1, this.2.2⟩⟩
 
+/-- **`python_full_version` lists.**  `python_full_version in "…"` / `not in "…"` on lists of two- and
+three-component versions are leaves of the same-name merge: a three-component token contributes `==a.b.c` /
+`!=a.b.c`, a two-component token the wildcard clause `a.b.*` / `!=a.b.*`; the constraint string the constructor
+builds is read as a constraint of the regular setting over Python bounds (two- and three-component bounds mixed —
+the bound list is closed under padding), so the text-tracking merge theorem applies.  The leaf facts hold on
+comparison, `~=` and list leaves together. -/
+theorem leafSpec_python_full_version_lists {X : Nat} {R : List Nat}
+    (hE : E.get? "python_full_version" = some (Version.relText (X :: R))) : LeafSpec (leafEval E) PfvLeafL :=
+  leafSpec_pfvL hE
+
+/-- the list leaves exist (the constructor builds them), and **what they mean**: on interpreter `X.Y.Z`,
+`python_full_version in "…"` holds exactly when a token lists `X.Y.Z` — a two-component token `a.b` lists every
+`a.b.*` (poetry's wildcard reading: `python_full_version not in "3.8"` excludes 3.8.*), a three-component token
+only itself — and `not in` is the negation -/
+theorem python_full_version_list_built {X Y Z : Nat}
+    (hE : E.get? "python_full_version" = some (Version.relText [X, Y, Z]))
+    (isIn : Bool) (t0 : PTok) (rest : List (String × PTok)) (hs : ∀ q ∈ rest, SepRun q.1) :
+    ∃ s, mkSingle "python_full_version" (listOp isIn ++ pfvList t0 rest) false = .ok s ∧ PfvListLeaf (.single s) ∧
+      leafEval E (.single s) =
+        (if isIn then (t0 :: rest.map (·.2)).any (PTok.hit X Y Z)
+          else !(t0 :: rest.map (·.2)).any (PTok.hit X Y Z)) := by
+  obtain ⟨res, B, hres, _⟩ := parse_pfvList_reg isIn t0 (rest.map (·.2))
+  exact ⟨_, mkSingle_pfvList isIn t0 rest hs hres, ⟨isIn, t0, rest, res, hs, hres, rfl⟩,
+    pfvListLeaf_means hE isIn t0 rest hs hres⟩
+
+/-- **The pairing with lists on both variables, no hypothesis.**  `_merge_python_version_single_markers` on a
+`python_version` leaf (seven operators or a list) against a `python_full_version` leaf (seven operators or a list
+of two- / three-component versions): the pairing structure is generalised (`PairCtxM`) — a merged single marker
+other than the converted operand is either a list marker, returned as merged (repo fix d9aa4ee), or a comparison /
+`~=` marker whose text is rewritten and parsed again (`mergePythonVersion_soundM`). -/
+theorem pairing_with_lists_both {X Y Z : Nat} (hE : EnvPy E X Y Z) :
+    PairSound (leafEval E) PvLeafL PfvLeafL := pairSound_pyLL hE
+
+/-- **Intersection and union with lists on both python variables, no unproved hypothesis**: string leaves with the
+four operators, `extra`, `python_version` with the seven operators and `in` / `not in` lists of two-component
+versions, `python_full_version` with the seven operators and `in` / `not in` lists of two- and three-component
+versions, `platform_release` — every fuel, every stack. -/
+theorem intersect_union_sound_lists_both {C : String → Prop}
+    (hC : ∀ u v, C u → C v → Generic.strIn u v = true ∨ Generic.strIn v u = true)
+    {B : List Version} (hpb : ∀ e ∈ B, PyBound e = true)
+    {ex : List String} (hX : E.extras = some ex) {X Y Z : Nat} (hE : EnvPy E X Y Z) {P : Nat} {Q : List Nat}
+    (hP : E.get? "platform_release" = some (Version.relText (P :: Q))) {a b r : M}
+    (ha : M.Good (FullLeafLL C B E) a) (hb : M.Good (FullLeafLL C B E) b) :
+    (mIntersect fuel stk a b = .ok r →
+      M.Good (FullLeafLL C B E) r ∧ M.validate E r = .ok (holds E a && holds E b)) ∧
+    (mUnion fuel stk a b = .ok r →
+      M.Good (FullLeafLL C B E) r ∧ M.validate E r = .ok (holds E a || holds E b)) := by
+  have S := leafSpec_fullLL hC hpb hX hE hP
+  have hev : ∀ l, FullLeafLL C B E l → ∃ b, l.validate E = .ok b := fun l hl => fullLeafLL_evaluable hpb hX hE hP hl
+  exact ⟨fun h => by have := intersect_sound_partial S hev ha hb h; exact ⟨this.1, this.2.2⟩,
+    fun h => by have := union_sound_partial S hev ha hb h; exact ⟨this.1, this.2.2⟩⟩
+
+/-- `python_full_version not in "3.8 3.9.1"` is false on interpreters 3.8.5 (3.8.* is listed) and 3.9.1, true on
+3.9.2 (only 3.9.1 is listed) -/
+example (X Y Z : Nat) (hE : E.get? "python_full_version" = some (Version.relText [X, Y, Z])) :
+    ∃ s, mkSingle "python_full_version" ("not in" ++ pfvList (.two 3 8) [(" ", .three 3 9 1)]) false = .ok s ∧
+      PfvListLeaf (.single s) ∧ pfvList (.two 3 8) [(" ", .three 3 9 1)] = "3.8 3.9.1" ∧
+      ((X, Y, Z) = (3, 8, 5) → leafEval E (.single s) = false) ∧
+      ((X, Y, Z) = (3, 9, 1) → leafEval E (.single s) = false) ∧
+      ((X, Y, Z) = (3, 9, 2) → leafEval E (.single s) = true) := by
+  obtain ⟨s, h1, h2, h3⟩ := python_full_version_list_built hE false (.two 3 8) [(" ", .three 3 9 1)]
+    (by intro q hq; simp at hq; subst hq; exact ⟨by decide, by decide⟩)
+  refine ⟨s, h1, h2, by decide, ?_, ?_, ?_⟩ <;>
+  · intro h
+    simp only [Prod.mk.injEq] at h
+    obtain ⟨rfl, rfl, rfl⟩ := h
+    rw [h3]
+    decide
+
 /-- **Inversion preserves truth on every marker of single markers in C06's agreement domain** — no closure
 under merging is needed (inversion never merges), so this covers item classes outside the intersect/union
 domain: a marker all of whose leaves are built from items that agree with the PEP 508 reference evaluator
@@ -905,8 +975,9 @@ the extras (and, where used, a release-number `platform_release`):
 * `extra == / !=`, plain values;
 * `python_version` with `== != < <= > >= ~=` and a literal `X.Y`, and `in` / `not in` lists of `X.Y` tokens;
 * `python_full_version` with the seven operators and a literal `X.Y.Z` (`X` / `X.Y` are padded by the
-  constructor to `X.0.0` / `X.Y.0` and land here), including the pairing with `python_version` for the seven
-  operators and for the lists;
+  constructor to `X.0.0` / `X.Y.0` and land here), and `in` / `not in` lists of `X.Y` and `X.Y.Z` tokens (an `X.Y`
+  token lists `X.Y.*`: the deliberate extension `pfv-list-two-component`), including the pairing with
+  `python_version` for the seven operators and for the lists on either side;
 * `platform_release` with the seven operators and a release number of one to three components.
 
 **Outside the domain — the boundary, one witness each** (replayed on the real code; F = the property is false
@@ -927,8 +998,10 @@ there, U = unproved, no counterexample known, E = an exception instead of a mark
    exclusive `<`); `(python_version > "3.8").intersect(python_full_version == "3.9.0rc1")` is empty, both true.
 6. U pre-release / post / dev / local literals with three components, four-component literals on
    `python_full_version`, wildcard literals `== "3.8.*"` / `!= "3.8.*"` (the lists are their sugar), `===`.
-7. U lists on `python_full_version` (known finding `pfv-list-two-component` for two-component tokens), `in` /
-   `not in` lists on string variables as single leaves (inversion is proved: `lists_ready_to_invert`).
+7. U lists on `python_full_version` with a one-component token (`"3"` = `3.*`) or a token of four or more
+   components, lists on `python_version` with a token that is not `X.Y`, `in` / `not in` lists on string variables
+   as single leaves (inversion is proved: `lists_ready_to_invert`); inversion of the `python_full_version` lists
+   with two-component tokens (three or more components: `lists_ready_to_invert`).
 8. U reversed operands on the version variables (`"3.8" <= python_version`), string values with white space,
    quotes, `|`, `,` or a leading `=` (known finding `generic-literal-whitespace`), `extra` with `in`/`not in`
    (rejected by the constructor), a `platform_release` that is not a version (`unmodelled`), inversion of an
